@@ -1,4 +1,5 @@
 import RsModel.Lemmas.NameLevel
+import RsModel.Lemmas.WellDeclDecl
 /-!
 # C13 through `map()`: the attribution of a ConcatSource tree depends only on its sequence of leaves
 
@@ -20,7 +21,8 @@ mutual
 theorem Src.wd_nc (cons : Text → Option Text) : ∀ (s : Src), Src.WD cons true s → s.NoCached
   | .raw .., _ | .rawStr .., _ | .rawBuf .., _ | .orig .., _ | .sms .., _ => trivial
   | .concat cs, h => by simp only [Src.WD] at h; exact SrcList.wd_ncL cons cs h
-  | .replace .., h | .cached .., h => by simp [Src.WD] at h
+  | .replace inner rs, h => by simp only [Src.WD] at h; exact h.1
+  | .cached .., h => by simp [Src.WD] at h
 theorem SrcList.wd_ncL (cons : Text → Option Text) : ∀ (l : SrcList), SrcList.WD cons true l → l.NoCachedL
   | .nil, _ => trivial
   | .cons s r, h => by simp only [SrcList.WD] at h; exact ⟨Src.wd_nc cons s h.1, SrcList.wd_ncL cons r h.2⟩
@@ -30,13 +32,13 @@ mutual
 /-- the stream of a ConcatSource tree attributes every byte as its leaves do, one after the other -/
 theorem Src.attr_leaves (cons : Text → Option Text) : ∀ (s : Src), Src.WD cons true s → ∀ σ,
     s.attr true σ = (s.leaves.map fun l => l.attr true σ).flatten
-  | .raw .., _, σ | .rawStr .., _, σ | .rawBuf .., _, σ | .orig .., _, σ | .sms .., _, σ => by simp [Src.leaves]
+  | .raw .., _, σ | .rawStr .., _, σ | .rawBuf .., _, σ | .orig .., _, σ | .sms .., _, σ | .replace .., _, σ => by simp [Src.leaves]
   | .concat cs, h, σ => by
     simp only [Src.WD] at h
     rw [Src.attr_concat cons true cs h σ]
     simp only [Src.leaves]
     exact SrcList.attr_leavesL cons cs h σ
-  | .replace .., h, _ | .cached .., h, _ => by simp [Src.WD] at h
+  | .cached .., h, _ => by simp [Src.WD] at h
 theorem SrcList.attr_leavesL (cons : Text → Option Text) : ∀ (l : SrcList), SrcList.WD cons true l → ∀ σ,
     ((l.streams ⟨true, false⟩ σ).1.map fun r => attrN emptyS emptyN r.evs).flatten = (l.leavesL.map fun x => x.attr true σ).flatten
   | .nil, _, σ => by simp [SrcList.streams, SrcList.leavesL]
@@ -74,5 +76,17 @@ theorem map_same_leaves (cons : Text → Option Text) (a b : Src) (ha : Src.WD c
   have := attr_same_leaves cons a b ha hb h []
   unfold Src.attr at this
   rw [this]
+
+/-- **a ReplaceSource over a well-declared cache-free tree is well declared** (so it may stand as a leaf in the ConcatSource law of
+C06 and in the regrouping theorem of C13): it passes the announcements of its inner stream through and keeps them dense -/
+theorem Src.wd_replace (cons : Text → Option Text) (inner : Src) (rs : List Repl) (hw : Src.WD cons true inner) (hi : inner.IdxHyp) :
+    Src.WD cons true (.replace inner rs) := by
+  have hnc := Src.wd_nc cons inner hw
+  refine ⟨hnc, fun σ => ?_⟩
+  simp only [Src.stream]
+  have hnodes := Src.nc_nodes inner hnc
+  have hnd : inner.ids.Nodup := by simp [Src.ids, hnodes]
+  have hsi : StoreIdx σ inner.cachedNodes := fun p hp => by rw [hnodes] at hp; simp at hp
+  exact replaceStream_wellDecl cons _ _ (Src.stream_wd cons true inner hw σ) (Src.stream_declOK inner _ σ hi hnd hsi)
 
 end Rs
